@@ -388,6 +388,56 @@ def _expected_translation(G, kind, X, sk):
     return None
 
 
+# ---------------------------------------------------------------- failures detected by glom itself
+
+# (target recipe, spec recipe, documented class): no fault is injected -- glom itself finds the problem
+DETECTED = [
+    ({'t': 'dict', 'v': [['a', 1]]}, ['str', 'zz'], 'PathAccessError'),
+    ({'t': 'dict', 'v': [['a', 1]]}, ['T', 'T', [['[', 'zz']]], 'PathAccessError'),
+    ({'t': 'obj', 'v': [['a', 1]]}, ['T', 'T', [['.', 'zz']]], 'PathAccessError'),
+    ({'t': 'dict', 'v': [['a', 1]]}, ['Coalesce', [['str', 'zz']], {}], 'CoalesceError'),
+    ({'t': 'dict', 'v': [['a', 1]]}, ['Coalesce', [['str', 'zz'], ['str', 'yy.x']], {}], 'CoalesceError'),
+    ({'t': 'dict', 'v': [['a', {'t': 'dict', 'v': [['b', 1]]}]]}, ['tuple', [['str', 'a'], ['Coalesce', [['T', 'T', [['[', 'q']]]], {}]]], 'CoalesceError'),
+    ({'t': 'list', 'v': [1, 2]}, ['Check', None, {'equal_to': 5}], 'CheckError'),
+    ({'t': 'dict', 'v': [['a', {'t': 'list', 'v': [1]}]]}, ['tuple', [['str', 'a'], ['Check', None, {'one_of': {'t': 'tuple', 'v': [1, 2]}}]]], 'CheckError'),
+    ({'t': 'dict', 'v': [['a', 1]]}, ['Check', None, {'one_of': {'t': 'tuple', 'v': ['x', 'y']}}], 'CheckError'),
+    (1, ['Check', None, {'type': 'str'}], 'CheckError'),
+    (5, ['list', [['T', 'T', []]]], 'UnregisteredTarget'),
+    (5, ['Sum'], 'FoldError'),
+    (None, ['Flatten'], 'FoldError'),
+    ({'t': 'dict', 'v': [['a', 1]]}, ['Match', ['dict', [['a', ['type', 'str']]]]], 'MatchError'),
+    ('abc', ['Match', ['Regex', '\\d+']], 'MatchError'),
+    ({'t': 'list', 'v': [1]}, ['Match', ['lit', {'t': 'list', 'v': []}]], 'MatchError'),
+    ({'t': 'dict', 'v': [['a', {'t': 'tuple', 'v': [1, 2]}]]}, ['Assign', ['str', 'a.0'], 5, None], 'UnregisteredTarget'),
+    ({'t': 'dict', 'v': [['a', {'t': 'list', 'v': [1]}]]}, ['Assign', ['str', 'a.5'], 9, None], 'PathAssignError'),
+    ({'t': 'dict', 'v': [['a', 1]]}, ['Delete', ['str', 'zz'], False], 'PathDeleteError'),
+    ({'t': 'dict', 'v': [['a', 1]]}, ['Delete', ['str', 'zz.y'], False], 'PathAccessError'),
+]
+
+
+def eval_detected(G, idx):
+    """-> violations for battery entry idx: the failure leaves glom() as the documented GlomError
+    subtype, and a top-level default replaces it (it IS a GlomError at its origin)"""
+    tgt_r, spec_r, want = DETECTED[idx]
+    viols = []
+    cls = getattr(G, want)
+    for variant in ('plain', 'default'):
+        k = simrun.make_kernel(G, seed=0)
+        B = build.Builder(G, k)
+        target, spec = B.value(tgt_r), B.spec(spec_r)
+        sentinel = {'sentinel': 'C04'}
+        kw = {'default': sentinel} if variant == 'default' else {}
+        res = k.run_single(lambda: G.glom(target, spec, **kw))
+        if variant == 'plain':
+            if res[0] != 'exc' or not isinstance(res[1], cls) or not isinstance(res[1], G.GlomError):
+                viols.append({'clause': 'documented-subtype', 'sig': f'documented-subtype/detected-by-glom/{want}',
+                              'expected': want, 'observed': canon.outcome(res, with_text=False)})
+        elif res[0] != 'ok' or res[1] is not sentinel:
+            viols.append({'clause': 'default-selectivity', 'sig': f'default-selectivity/detected-by-glom-not-replaced/{want}',
+                          'expected': 'the default object', 'observed': canon.outcome(res, with_text=False)})
+    return viols
+
+
 # ------------------------------------------------------------------------------------------ driver
 
 def run_case(case):
@@ -395,6 +445,12 @@ def run_case(case):
     fault plans executed before it on the same instance (a fault SEQUENCE across calls)"""
     G = simrun.make_instance(case['item']['knobs'])
     stats = {}
+    if 'detected' in case:
+        viols = eval_detected(G, case['detected'])
+        d = simrun.jhash(['detected', case['detected']])
+        for v in viols:
+            v['digest'] = d
+        return {'violations': viols, 'digest': d, 'stats': stats}
     for pre in case.get('pre_plans') or []:
         _one_run(G, case['item'], pre, 'b')
     # everything the same private instance went through before this plan (what glom remembers from
@@ -416,6 +472,8 @@ def run_case(case):
 
 def shrink_candidates(case):
     """drop faults from the plan first, then variants"""
+    if 'detected' in case:
+        return
     plan = case['plan']
     if len(plan) > 1:
         for k_ in list(plan):
@@ -523,6 +581,14 @@ def run_seed(seed, tier):
             stats['reach.fault_sequence_across_calls'] = 1
         except SimBudgetExceeded:
             pass
+    if seed % 20 == 0:
+        # the fault-free battery, on this seed's instance (its knobs, and whatever the plans above left behind)
+        for idx in range(len(DETECTED)):
+            for v in eval_detected(G, idx):
+                v['digest'] = simrun.jhash(['detected', idx])
+                out['violations'].append(dict(v, case={'prop': PROP, 'seed': seed, 'item': {'knobs': item['knobs']},
+                                                       'detected': idx}))
+        stats['detected_by_glom_battery'] = len(DETECTED)
     out['events'] = len(D['k'].log) * len(plans) * 4
     if seed % 100 == 0:
         out['sample'] = {'seed': seed, 'spec': item['spec'], 'classes': item['classes'],
